@@ -1,5 +1,6 @@
 import Crusta.Model.Cli
 import Crusta.Gen.Problem
+import Crusta.Gen.Dispatch
 import Crusta.Proofs.Oracle
 import Crusta.Proofs.CliCompose
 import Crusta.Proofs.CliFile
@@ -292,5 +293,53 @@ theorem grammar_is_the_source :
       simp only [allTasks, List.map, List.mem_cons, Prod.mk.injEq, List.mem_nil_iff, or_false] at h
       unfold queryOf
       cases t <;> simp_all [taskName, taskLower] <;> decide
+
+def kindName : SolverKind → String
+  | .GR => "GR" | .CO => "CO" | .PR => "PR" | .ST => "ST" | .SST => "SST" | .STG => "STG" | .ID => "ID"
+
+def encOfName : String → Option EncKind
+  | "auxCF" => some .auxCF | "auxADM" => some .auxADM | "auxCO" => some .auxCO
+  | "expCF" => some .expCF | "expCO" => some .expCO | "hyb" => some .hyb | _ => none
+
+/-- does an arm of `create_encoder` apply? (`[]` = the wildcard arm; a guard needs the literal problem string) -/
+def rowApplies (r : List String × String × String × String × String) (σ : Sem) (literal : Bool) : Bool :=
+  (r.1.isEmpty || r.1.contains (semName σ)) && (r.2.1 == "" || literal)
+
+/-- interpretation of the generated table as Rust evaluates the nested `match` -/
+def lookupEnc (tbl : List (List String × String × String × String × String)) (σ : Sem) (enc : Option String)
+    (literal : Bool) : Option (Option EncKind) :=
+  match tbl.find? (fun r => rowApplies r σ literal) with
+  | none => none
+  | some r0 =>
+    if r0.2.2.2.2 == "none" then some none
+    else
+      let v := enc.getD r0.2.2.1
+      match tbl.find? (fun r => r.1 == r0.1 && r.2.1 == r0.2.1 && r.2.2.2.1 == v) with
+      | some r => (encOfName r.2.2.2.2).map some
+      | none => none
+
+/-- **the dispatch tables are those of the source**: which solver type answers each of the 21
+problems (the three `match semantics` of `compute_one_extension`, `check_credulous_acceptance`,
+`check_skeptical_acceptance`) and which encoder `create_encoder` selects for every semantics, every
+`--encoding` value and the literal `SE-PR` guard are regenerated from `src/app/solve_command.rs` on
+every run; the Lean `dispatchSolver` / `dispatchEncoder` — the functions `cli_answer_valid` is
+about — agree with these tables on every problem and every option value -/
+theorem dispatch_is_the_source :
+    (∀ t σ, (taskName t, semName σ, kindName (dispatchSolver t σ)) ∈ Gen.dispatchTable) ∧
+    Gen.dispatchTable.length = 21 ∧
+    (∀ σ (enc : Option String) (literal : Bool), (literal = true → σ = .PR) →
+      enc ∈ [none, some "aux_var", some "exp", some "hybrid"] →
+      lookupEnc Gen.encoderTable σ enc literal = some (dispatchEncoder σ enc literal)) := by
+  refine ⟨?_, by decide, ?_⟩
+  · intro t σ
+    cases t <;> cases σ <;> decide
+  · intro σ enc literal hl henc
+    simp only [List.mem_cons, List.mem_nil_iff, or_false] at henc
+    cases literal with
+    | true =>
+      have := hl rfl; subst this
+      rcases henc with rfl | rfl | rfl | rfl <;> decide
+    | false =>
+      cases σ <;> rcases henc with rfl | rfl | rfl | rfl <;> decide
 
 end Crusta.C05
